@@ -64,7 +64,14 @@ func runRelay(s RelayScript, v *vt.V) {
 		rss = append(rss, parseRS(sc))
 	}
 	ctx := context.Background()
-	if len(rss) > 0 {
+	unlimited := false
+	for _, sc := range s.Scopes {
+		unlimited = unlimited || sc == "unlimited"
+	}
+	if unlimited {
+		// the scope that contains everything: there is nothing to rewrite, it stays what it is
+		ctx = ociauth.ContextWithScope(ctx, ociauth.UnlimitedScope())
+	} else if len(rss) > 0 {
 		ctx = ociauth.ContextWithScope(ctx, ociauth.NewScope(append([]ociauth.ResourceScope(nil), rss...)...)) // NewScope sorts and compacts its argument in place
 	}
 	dg := digest.FromBytes([]byte("x"))
@@ -192,7 +199,10 @@ func runRelay(s RelayScript, v *vt.V) {
 		wantRS = append(wantRS, rs)
 	}
 	want := ociauth.NewScope(wantRS...)
-	if !got.Equal(want) {
+	if unlimited {
+		want = ociauth.UnlimitedScope()
+	}
+	if !got.Equal(want) || got.IsUnlimited() != want.IsUnlimited() {
 		v.Failf("wrong-scope", "%s: context scope at the underlying registry is %q, want %q", desc, got.Canonical().String(), want.Canonical().String())
 	}
 }
@@ -226,7 +236,7 @@ func genRelay(t *rapid.T) RelayScript {
 		s.Start = rapid.SampledFrom([]string{"", "", "a", "x/y", "zz", "../x", s.Prefix}).Draw(t, "start")
 	}
 	for n := rapid.IntRange(0, 3).Draw(t, "nscopes"); n > 0; n-- {
-		s.Scopes = append(s.Scopes, rapid.SampledFrom([]string{"repository:a:pull", "repository:a:push", "repository:a/b:pull", "repository:x:delete", "registry:catalog:*", "other:thing:act", "repository::pull", "opaque",
+		s.Scopes = append(s.Scopes, rapid.SampledFrom([]string{"repository:a:pull", "repository:a:push", "repository:a/b:pull", "repository:x:delete", "registry:catalog:*", "other:thing:act", "repository::pull", "opaque", "unlimited",
 			// repositories of the view whose own names look like the prefix
 			"repository:" + s.Prefix + ":pull", "repository:" + s.Prefix + "/x:pull", "repository:" + s.Prefix + "/" + s.Prefix + ":push", "repository:" + s.Prefix + "ey:pull", "other:" + s.Prefix + "/x:pull"}).Draw(t, "scope"))
 	}
@@ -243,7 +253,7 @@ func genRelay(t *rapid.T) RelayScript {
 var propRelay = &vt.Prop[RelayScript]{
 	ID:   "C13",
 	Name: "SubRelay",
-	Rule: "Sub(recorder, prefix) with prefixes of 1-3 elements (incl. routing words); each of the 18 methods; caller repository names from the valid grammar and from hostile generators (empty, '.', '..', '../other', 'x/../../other', leading/trailing/double slashes, upper case, NUL, UTF-8, names equal to or starting with the prefix); 0-3 context scopes (repository pull/push/unknown action, registry:catalog:*, other types, empty repository, opaque, repositories whose own name equals or starts with the prefix); oracle = exactly one underlying call; a well-formed name n arrives as prefix/n; whatever arrives for a malformed name is empty or literally below prefix/ and does not resolve (dot segments) outside it; the context scope at the underlying registry equals the caller's with repository resources prefixed and nothing else changed; Repositories shows exactly the stripped names under prefix/; non-trivial = hostile name, start point, or name sharing the prefix text; distinct = (prefix, method, names, start)",
+	Rule: "Sub(recorder, prefix) with prefixes of 1-3 elements (incl. routing words); each of the 18 methods; caller repository names from the valid grammar and from hostile generators (empty, '.', '..', '../other', 'x/../../other', leading/trailing/double slashes, upper case, NUL, UTF-8, names equal to or starting with the prefix); 0-3 context scopes (repository pull/push/unknown action, registry:catalog:*, other types, empty repository, opaque, repositories whose own name equals or starts with the prefix, the unlimited scope); oracle = exactly one underlying call; a well-formed name n arrives as prefix/n; whatever arrives for a malformed name is empty or literally below prefix/ and does not resolve (dot segments) outside it; the context scope at the underlying registry equals the caller's with repository resources prefixed and nothing else changed; Repositories shows exactly the stripped names under prefix/; non-trivial = hostile name, start point, or name sharing the prefix text; distinct = (prefix, method, names, start)",
 	Gen:  genRelay,
 	Run:  runRelay,
 }
